@@ -132,3 +132,85 @@ func OnceDo(site int, o *sync.Once, f func()) {
 	defer onceThrough(o)
 	o.Do(f)
 }
+
+// OnceFunc, OnceValue and OnceValues are sync.OnceFunc, sync.OnceValue and
+// sync.OnceValues (same contract, including the replay of a panic) over OnceDo.
+func OnceFunc(site int, f func()) func() {
+	var (
+		once  sync.Once
+		valid bool
+		p     any
+	)
+	g := func() {
+		defer func() {
+			p = recover()
+			if !valid {
+				panic(p)
+			}
+		}()
+		f()
+		f = nil
+		valid = true
+	}
+	return func() {
+		OnceDo(site, &once, g)
+		if !valid {
+			panic(p)
+		}
+	}
+}
+
+func OnceValue[T any](site int, f func() T) func() T {
+	var (
+		once   sync.Once
+		valid  bool
+		p      any
+		result T
+	)
+	g := func() {
+		defer func() {
+			p = recover()
+			if !valid {
+				panic(p)
+			}
+		}()
+		result = f()
+		f = nil
+		valid = true
+	}
+	return func() T {
+		OnceDo(site, &once, g)
+		if !valid {
+			panic(p)
+		}
+		return result
+	}
+}
+
+func OnceValues[T1, T2 any](site int, f func() (T1, T2)) func() (T1, T2) {
+	var (
+		once  sync.Once
+		valid bool
+		p     any
+		r1    T1
+		r2    T2
+	)
+	g := func() {
+		defer func() {
+			p = recover()
+			if !valid {
+				panic(p)
+			}
+		}()
+		r1, r2 = f()
+		f = nil
+		valid = true
+	}
+	return func() (T1, T2) {
+		OnceDo(site, &once, g)
+		if !valid {
+			panic(p)
+		}
+		return r1, r2
+	}
+}
